@@ -216,6 +216,55 @@ class Chan(Engine):
                 ctx.check(False, 'C10.errclass', 'Base58Check %s: library signalled %s, expected %s' % (what, got, ref[0]), lib=str(got[-1]), ref=ref[0], **det)
         return got
 
+    def _b58_interrupt(self, text, sel, ver, payload):
+        """(round u) An asynchronous exception - a signal handler raising KeyboardInterrupt, a cancellation - delivered
+        at the k-th source line the decoder executes (k is part of the plan; the line-event hook is the seam): the
+        injected exception, and nothing else, must come out - never a verdict about the string.  If the decoder
+        finishes before its k-th line, the right answer must."""
+        import sys
+        import os as _os
+        ctx, B58 = self.ctx, self.B58
+        if sys.gettrace() is not None or _os.environ.get('VERIF_PYMODE') == 'Threads':
+            return          # the line-event seam is taken by the two-thread scheduler
+        fn = B58.__file__
+        if fn.endswith(('.pyc', '.pyo')):
+            fn = fn[:-1]
+
+        class _Interrupt(BaseException):
+            pass
+        inj = _Interrupt()
+        k = 1 + sel % (5 * len(text) + 16)
+        state = {'n': 0, 'fired': False}
+
+        def _local(frame, event, arg):
+            if event == 'line' and not state['fired']:
+                state['n'] += 1
+                if state['n'] == k:
+                    state['fired'] = True
+                    raise inj
+            return _local
+
+        def _global(frame, event, arg):
+            return _local if frame.f_code.co_filename == fn else None
+        sys.settrace(_global)
+        try:
+            try:
+                o = B58.CBase58Data(text)
+                out = ('ok', o.nVersion, bytes(o))
+            except BaseException as e:
+                out = ('raised', e)
+        finally:
+            sys.settrace(None)
+        if state['fired']:
+            ctx.fault('interrupt.at-line')
+            ctx.check(out[0] == 'raised' and out[1] is inj, 'C10.accept-iff-ref',
+                      'an asynchronous exception delivered at line event %d of decoding a VALID string came out as %s instead of itself'
+                      % (k, ('the verdict ' + type(out[1]).__name__) if out[0] == 'raised' else 'a normal return'), fault='interrupt')
+        else:
+            ctx.probe('interrupt-after-return')
+            ctx.check(out == ('ok', ver, payload), 'C10.inverse', 'text form of (version %d, %d-byte payload) does not decode back to it under a line tracer: %r'
+                      % (ver, len(payload), out[:2]), plen=len(payload))
+
     def _op_b58check(self, a):
         ctx, B58 = self.ctx, self.B58
         ver, payload = a['version'], bytes.fromhex(a['payload'])
@@ -259,6 +308,7 @@ class Chan(Engine):
             ctx.probe('corrupted-before-genuine')
         got = self._b58_decode_check(text, 'fault-free channel')
         ctx.check(got == ('ok', ver, payload), 'C10.inverse', 'text form of (version %d, %d-byte payload) does not decode back to it: %r' % (ver, len(payload), got[:2]), plen=len(payload))
+        self._b58_interrupt(text, a['multi'][0][3] if a['multi'] else 0, ver, payload)
         ctx.log(0, 0, 'b58check', '', 'len%d' % len(text))
         n = len(text)
         if a.get('light'):
@@ -860,7 +910,7 @@ class Chan(Engine):
                     self._b32_judge(hrp, rendering, 'crafted with a valid checksum (%s, version %d, %d-byte program)' % (name, ver, n), (ver, prog), False,
                                     fault='crafted', rule=name)
             # the right structure under another final checksum constant (BIP350's Bech32m constant, 0, all ones)
-            for const in (RB32.BECH32M_CONST, 0, 0x3fffffff, 2):
+            for const in (RB32.BECH32M_CONST, 0, 0x3fffffff, 2, 0x3ffffffe, 0x20000001, 3):   # (round u: 0x3ffffffe = the checksum stored inverted)
                 self._b32_judge(hrp, self._craft(hrp, [ver] + d5, const), 'crafted with checksum constant 0x%x (version %d, %d-byte program)' % (const, ver, n),
                                 (ver, prog), False, fault='crafted', rule='other-constant')
             # wrong prefix / prefix of another chain with a checksum valid for that prefix
